@@ -960,6 +960,17 @@ func (fx *Fx) specCall(env *SpecEnv, e *SCall) Val {
 			name := "elemaddr_" + typeKey(sl.Elem())
 			c.declareFun(name, []string{"Int", "Int"}, "Int")
 			return Val{T: fmt.Sprintf("(%s (s_base %s) (+ (s_off %s) %s))", name, x.T, x.T, i.T), S: "Int", GT: types.NewPointer(sl.Elem())}
+		case "fmtv":
+			// fmtv(x): fmt.Sprintf("%v", x) of a float
+			x := arg(0)
+			if x.S == "Int" {
+				return Val{T: "(itoa " + x.T + ")", S: "Str", GT: types.Typ[types.String]}
+			}
+			c.declareFun("fmt_real_v", []string{"Real"}, "Str")
+			return Val{T: "(fmt_real_v " + x.T + ")", S: "Str", GT: types.Typ[types.String]}
+		case "fmtf":
+			c.declareFun("fmt_real_f", []string{"Real"}, "Str")
+			return Val{T: "(fmt_real_f " + arg(0).T + ")", S: "Str", GT: types.Typ[types.String]}
 		case "itoa":
 			return Val{T: "(itoa " + arg(0).T + ")", S: "Str", GT: types.Typ[types.String]}
 		case "heap":
@@ -976,6 +987,48 @@ func (fx *Fx) specCall(env *SpecEnv, e *SCall) Val {
 				}
 			}
 			return Val{T: st.heap(s.V, srt), S: srt}
+		case "unchanged":
+			// unchanged(): every heap equals its value in the old state; unchanged("x.f", "elems(T)") lists exceptions
+			skip := map[string]bool{}
+			pkg := env.pkg
+			if pkg == nil {
+				pkg = fx.pkg
+			}
+			for _, a := range e.Args {
+				s, ok := a.(*SStr)
+				if !ok {
+					sfail("unchanged() takes string literals")
+				}
+				keys, err := fx.w.resolveModEntry(pkg, fx.fi, s.V)
+				if err != nil {
+					sfail("unchanged(%q): %v", s.V, err)
+				}
+				for _, k := range keys {
+					skip[k] = true
+				}
+			}
+			var parts []string
+			for _, k := range sortedKeys(c.heapSorts()) {
+				if skip[k] || k == "NC" {
+					continue
+				}
+				srt := c.heapSorts()[k]
+				a, b := env.st.heap(k, srt), env.old.heap(k, srt)
+				if a != b {
+					parts = append(parts, fmt.Sprintf("(= %s %s)", a, b))
+				}
+			}
+			if len(parts) == 0 {
+				return Val{T: "true", S: "Bool", GT: boolT}
+			}
+			return Val{T: "(and " + strings.Join(parts, " ") + " true)", S: "Bool", GT: boolT}
+		case "store":
+			// store(a, i, v): array update
+			a, i, v := arg(0), arg(1), arg(2)
+			if !strings.HasPrefix(a.S, "(Array") {
+				sfail("store() on %s", a.S)
+			}
+			return Val{T: fmt.Sprintf("(store %s %s %s)", a.T, i.T, v.T), S: a.S}
 		case "ite":
 			cnd := fx.specBool(env, e.Args[0])
 			a, b := fx.specUnify(env, arg(1), arg(2))
